@@ -207,6 +207,7 @@ func runC07(r *vfw.Run) {
 		from common.Address
 	}
 	var votes []wireVote
+	mixedVersions := t.Choose("c07.mixedversions", 3) == 0
 	voteFor := func(c *c07node, who *scen.Ident, hash common.Hash, st uint8) {
 		c.n.Do(func() {
 			c.n.Sec.AddKey(crypto.FromECDSA(who.Key))
@@ -217,6 +218,17 @@ func runC07(r *vfw.Run) {
 					vt := v.(*types.Vote)
 					if vt.VoterAddr() == who.Addr && vt.Header.Step == st && vt.Header.VotedHash == hash {
 						b, _ := vt.ToBytes()
+						if mixedVersions && t.Choose("c07.otherversion", 3) == 0 {
+							// this member runs another node version: same vote, other upgrade / offline-proposal bits, its own signature
+							hd := *vt.Header
+							hd.Upgrade = uint32(1 + t.Choose("c07.upgradebits", 14))
+							hd.TurnOffline = t.Choose("c07.turnoffline", 2) == 0
+							ov := &types.Vote{Header: &hd}
+							h := crypto.SignatureHash(ov)
+							ov.Signature, _ = crypto.Sign(h[:], who.Key)
+							b, _ = ov.ToBytes()
+							r.Fault("member_votes_with_other_upgrade_bits")
+						}
 						votes = append(votes, wireVote{b, who.Addr})
 					}
 					return true
